@@ -18,6 +18,7 @@
 #include <fcntl.h>
 #include <sys/mman.h>
 #include <execinfo.h>
+#include <dlfcn.h>
 #include <errno.h>
 
 namespace vf {
@@ -196,6 +197,27 @@ inline void crash_handler(int sig, siginfo_t*, void*) {
     _exit(sig == SIGXCPU ? 43 : 42);
 }
 // One-shot CPU-time budget for the calling thread: SIGXCPU when a single case burns > limit.
+// The budget judges the code under test, not the sanitizer runtime: the first report of a process makes the runtime read the
+// debug information of the whole executable (seconds of CPU on a loaded machine).  When the budget expires while the interrupted
+// code is the runtime's own (the frames right below the signal frame belong to lib{asan,ubsan,tsan}), the budget is granted again,
+// at most 6 times; a call that really hangs is still reported, a little later.
+inline timer_t g_budget_timer{}; inline bool g_budget_ok = false; inline double g_budget_sec = 0; inline int g_budget_extensions = 0; inline long g_budget_extensions_total = 0;
+inline void xcpu_handler(int sig, siginfo_t* si, void* uc) {
+    if (g_budget_ok && g_budget_extensions < 6) {
+        void* fr[24]; int n = backtrace(fr, 24); bool inRuntime = false;
+        // frames 0-2 are this handler, (the sanitizer's signal wrapper,) the signal trampoline; look at the interrupted frames
+        for (int i = 1; i < n && i < 8 && !inRuntime; i++) { Dl_info di{}; if (dladdr(fr[i], &di) && di.dli_fname) { const char* b = strrchr(di.dli_fname, '/'); b = b ? b + 1 : di.dli_fname; if (!strncmp(b, "libubsan", 8) || !strncmp(b, "libtsan", 7)) inRuntime = true; } }
+        // libasan also hosts the signal wrapper itself (frame 0/1 of every handler run): require libasan frames BELOW the trampoline (libc)
+        if (!inRuntime) { bool seenLibc = false; for (int i = 1; i < n && i < 10; i++) { Dl_info di{}; if (!dladdr(fr[i], &di) || !di.dli_fname) continue; const char* b = strrchr(di.dli_fname, '/'); b = b ? b + 1 : di.dli_fname; if (!strncmp(b, "libc.", 5)) { seenLibc = true; continue; } if (seenLibc) { inRuntime = !strncmp(b, "libasan", 7); break; } } }
+        if (inRuntime) {
+            g_budget_extensions++; g_budget_extensions_total++;
+            struct itimerspec its{}; its.it_value.tv_sec = (time_t)g_budget_sec; its.it_value.tv_nsec = (long)((g_budget_sec - (time_t)g_budget_sec) * 1e9);
+            timer_settime(g_budget_timer, 0, &its, nullptr);
+            return;
+        }
+    }
+    crash_handler(sig, si, uc);
+}
 struct CpuBudget {
     timer_t tm{};
     bool ok = false;
@@ -204,9 +226,11 @@ struct CpuBudget {
         sev.sigev_notify = SIGEV_SIGNAL;
         sev.sigev_signo = SIGXCPU;
         ok = timer_create(CLOCK_THREAD_CPUTIME_ID, &sev, &tm) == 0;
+        g_budget_timer = tm; g_budget_ok = ok;
     }
     void arm(double sec) {
         if (!ok) return;
+        g_budget_sec = sec; g_budget_extensions = 0;
         struct itimerspec its{};
         its.it_value.tv_sec = (time_t)sec;
         its.it_value.tv_nsec = (long)((sec - (time_t)sec) * 1e9);
@@ -222,7 +246,7 @@ inline void install_handlers(bool with_segv = true) {
     static char altstack[1 << 16];
     stack_t ss{}; ss.ss_sp = altstack; ss.ss_size = sizeof altstack; sigaltstack(&ss, nullptr);
     sa.sa_flags |= SA_ONSTACK;
-    sigaction(SIGXCPU, &sa, nullptr);
+    { struct sigaction sx = sa; sx.sa_sigaction = xcpu_handler; sx.sa_flags &= ~SA_RESETHAND; sigaction(SIGXCPU, &sx, nullptr); }
 #if !defined(__SANITIZE_ADDRESS__) && !defined(__SANITIZE_THREAD__)
     if (with_segv) {
         sigaction(SIGSEGV, &sa, nullptr);
